@@ -83,6 +83,26 @@ def r1(idx, rep):
                 if p.result[0] != "return" or got is not want:
                     bad = bad or f"{MODE_KEYS[cls]}: {mv!r} gives {got!r} ({p.result[0]}), docs/comments.md says {want!r}"
         rep.check(bad is None, "R1", f"{fu.file}::{cls} value table", bad or f"{len(table)} values", K.where(fu, fu.node))
+    # programmatic setters: setting a boolean and re-reading it from the metadata it writes gives the same boolean
+    for cls in MODE_TABLES:
+        attr = MODE_TABLES[cls][0]
+        fset = idx.method(cls, "value.setter")
+        fget = idx.method(cls, "value")
+        bad = None
+        for b in (True, False):
+            meta = {}
+            it = Interp(idx, types={"self": cls}, inline={f"{cls}.value"}, unknown_calls="residual",
+                        handlers={"self.controller.set": lambda i, c, r, a, k, meta=meta: meta.__setitem__(a[0], a[1]), "self.controller.get": lambda i, c, r, a, k, meta=meta: meta.get(a[0])})
+
+            def program(it, b=b, fset=fset, fget=fget, attr=attr):
+                it.call_function(fset, {"__pos__": [b]}, "self")
+                it.store["self." + attr] = None
+                return it.call_function(fget, {}, "self")
+
+            ps = it.run_program(program, {})
+            if len(ps) != 1 or ps[0].result != ("return", b):
+                bad = bad or f"setting {MODE_KEYS[cls]} to {b} writes {meta} which reads back as {ps[0].result}"
+        rep.check(bad is None, "R1", f"{fset.file}::{cls} setter/getter round trip", bad or "", K.where(fset, fset.node))
     # ReturnMode.collect_when_not_matched == value is True
     fr = idx.method("ReturnMode", "collect_when_not_matched")
     rep.check(unparse(fr.node.body[-1]) == "return self.value is True", "R1", f"{fr.file}::ReturnMode.collect_when_not_matched", unparse(fr.node.body[-1]), K.where(fr, fr.node))
